@@ -1244,7 +1244,7 @@ def text_decoration_thickness(token):
     length = get_length(token, percentage=True)
     if length:
         return length
-    if keyword := get_keyword(token) in ('auto', 'from-font'):
+    if (keyword := get_keyword(token)) in ('auto', 'from-font'):
         return keyword
 
 
